@@ -504,3 +504,62 @@ func init() {
 		MinReach: []string{"end"}, TVVectors: 3,
 	})
 }
+
+func init() {
+	register(&Property{
+		ID: "C18", Dirs: []string{"internal/strings", "root"},
+		Jobs: func(tier string) []Job {
+			var jobs []Job
+			kinds, maxn := 5, 2
+			if tier == "thorough" {
+				kinds, maxn = 10, 2
+			}
+			for _, cs := range []string{"true", "false"} {
+				for _, pre := range []string{"false", "true"} {
+					for _, post := range []string{"false", "true"} {
+						for np := 0; np <= maxn; np++ {
+							for nc := 0; nc <= maxn; nc++ {
+								if np == 0 && nc > 1 {
+									continue
+								}
+								kk := kinds
+								if tier != "thorough" && np+nc > 2 {
+									kk = 3
+								}
+								if tier == "thorough" && np+nc > 3 {
+									kk = 5
+								}
+								jobs = append(jobs, Job{Harness: "VX_C18_plain", Params: P("cs", cs, "pre", pre, "post", post, "np", itoa(np), "nc", itoa(nc), "kinds", itoa(kk)), MaxPaths: 500000})
+							}
+						}
+					}
+				}
+				for _, only := range []string{"%", "%%"} {
+					jobs = append(jobs, Job{Harness: "VX_C18_plain", Params: P("cs", cs, "pre", "true", "post", "true", "np", "0", "nc", "1", "kinds", itoa(kinds), "only", only)})
+				}
+				if tier == "thorough" {
+					jobs = append(jobs, Job{Harness: "VX_C18_plain", Params: P("cs", cs, "pre", "true", "post", "true", "np", "1", "nc", "3", "kinds", "10"), MaxPaths: 2000000})
+					jobs = append(jobs, Job{Harness: "VX_C18_plain", Params: P("cs", cs, "pre", "false", "post", "false", "np", "3", "nc", "3", "kinds", "4"), MaxPaths: 2000000})
+				}
+				for _, pat := range []string{"a.c", "%a.c", "a.c%", "%a.c%", "a(b", "%(", "[a-c]+", ".*", "%.%", "^a$", "a|b", "%a\\", "(?i)a.", "a{2}"} {
+					jobs = append(jobs, Job{Harness: "VX_C18_regex", Params: P("cs", cs, "pattern", pat, "nc", "2")})
+				}
+			}
+			for _, cmp := range []string{"like", "ilike"} {
+				for _, pat := range []string{"b", "%b", "b%", "%b%", "B", "%", "b.", "%(", ""} {
+					jobs = append(jobs, Job{Harness: "VX_C18_columns", Params: P("cmp", cmp, "pattern", pat)})
+				}
+			}
+			return jobs
+		},
+		Bounds: func(tier string) string {
+			if tier == "thorough" {
+				return "cells and patterns of <=2 rune positions (3 in two extra jobs), each position a symbolic ASCII byte (all 128 values) or one of U+0080, µ, ÿ, ı, ſ, ɐ, ⱥ, U+10428, U+FFFD; all four %-placements, patterns % and %%, like and ilike; one matcher used for two consecutive cells (buffer reuse); 14 regex patterns incl. invalid ones against symbolic 2-byte ASCII cells; string column vs enum column on 9 patterns"
+			}
+			return "cells and patterns of <=2 rune positions, each position a symbolic ASCII byte (all 128 values) or one of U+0080, µ, ÿ, ı (only U+0080, µ when pattern+cell have more than 2 positions); all four %-placements, patterns % and %%, like and ilike; one matcher used for two consecutive cells (buffer reuse); 14 regex patterns incl. invalid ones against symbolic 2-byte ASCII cells; string column vs enum column on 9 patterns"
+		},
+		Assume:   []string{"Go's regexp is the oracle for regex patterns: (*Regexp).MatchString is an uninterpreted predicate of (pattern, subject); the check decides that the pattern handed to regexp.Compile is the documented transformation and that compile errors propagate", "unicode.ToUpper for non-ASCII code points is the host's (real tables, concrete code points); for ASCII it is arithmetic on a..z", "plain patterns: ASCII bytes are assumed not to be regex metacharacters or % (those are covered by the regex jobs and the %-flags)"},
+		Outside:  []string{"code points outside the alphabet", "strings longer than 3 rune positions (the 10-byte initial buffer is crossed by 3 runes of 4 bytes only in the thorough job)"},
+		MinReach: []string{"end"}, TVVectors: 3,
+	})
+}
